@@ -56,7 +56,7 @@ def history(cfg, skip_first_query=False):
     steps = []
     idx = NNDescent(X, n_neighbors=cfg["k"], random_state=cfg["seed"], low_memory=cfg["low_memory"],
                     diversify_prob=cfg["dprob"], parallel_batch_queries=cfg["pbq"], tree_init=cfg["tree_init"],
-                    n_jobs=None, max_candidates=cfg.get("max_candidates"))
+                    n_jobs=cfg.get("n_jobs"), max_candidates=cfg.get("max_candidates"))
     steps.append(("build", state_digest(idx, False)))
     idx.prepare()
     steps.append(("prepare", state_digest(idx, True)))
@@ -77,6 +77,22 @@ def history(cfg, skip_first_query=False):
     return steps
 
 
+def history_keeps_thread_count(cfg):
+    """the premise of the property - a FIXED thread count - must survive the history itself: an operation that leaves the process-wide
+    count changed makes everything after it run under another partition of the rows and other per-thread generator streams"""
+    X, Q, U = make_data(cfg)
+    numba.set_num_threads(cfg["threads"])
+    idx = NNDescent(X, n_neighbors=cfg["k"], random_state=cfg["seed"], low_memory=cfg["low_memory"], tree_init=cfg["tree_init"],
+                    n_jobs=cfg.get("n_jobs"))
+    seen = [("build", numba.get_num_threads())]
+    idx.prepare(); seen.append(("prepare", numba.get_num_threads()))
+    idx.query(Q[:20], k=cfg["qk"]); seen.append(("query", numba.get_num_threads()))
+    if U is not None and cfg["kind"] == "dense":
+        idx.update(xs_fresh=U); seen.append(("update", numba.get_num_threads()))
+        idx.query(Q[:20], k=cfg["qk"]); seen.append(("query-after-update", numba.get_num_threads()))
+    return [(s, t) for s, t in seen if t != cfg["threads"]]
+
+
 def gen_cfg(rng, tier, i):
     kind = "dense" if i % 3 != 2 else "sparse"
     maxt = numba.config.NUMBA_NUM_THREADS
@@ -87,6 +103,8 @@ def gen_cfg(rng, tier, i):
         "tree_init": bool(rng.integers(4) > 0), "threads": int(rng.choice([2, 3, 4, 8, maxt, maxt])),
         "nq": 400, "nu": 100, "qk": int(rng.choice([5, 10])), "eps": float(rng.choice([0.0, 0.1, 0.3])),
         "update": bool(rng.integers(2)) and kind == "dense", "ties": bool(rng.integers(3) == 0) or i == 1,
+        # the index's own limit (below the ambient count): its work runs on n_jobs threads, everything else on the ambient count
+        "n_jobs": [None, None, 2][int(rng.integers(3))] if i != 0 else 2,
     }
 
 
@@ -108,6 +126,10 @@ def check_cfg(res, cfg, reps):
                 res.violation("repro:%s:%s" % (key, s0), "repetition %d differs from repetition 0 after step %s in %s"
                               % (r, s0, diff), {"cfg": cfg, "step": s0, "fields": diff})
                 return
+    bad = history_keeps_thread_count(cfg) if cfg.get("n_jobs") else []
+    if bad:
+        res.violation("repro:%s:thread-count-changed" % key, "with %d threads set (n_jobs=%r) the process-wide count is %d after %s: later work no "
+                      "longer runs at the fixed thread count" % (cfg["threads"], cfg.get("n_jobs"), bad[0][1], bad[0][0]), {"cfg": cfg})
     # repeating a query returns the same answer
     d = dict(ref)
     if "query1" in d and d["query1"]["ans"] != d["query1-again"]["ans"]:
